@@ -425,9 +425,12 @@ def subst_fill_each(d, fillers):
 
 # ------------------------------------------------------------------ document generator
 class DocGen:
-    def __init__(self, forest, conv):
+    def __init__(self, forest, conv, declared=None):
         self.F = forest
         self.conv = conv
+        # struct -> yaml keys of every nil-able member its union struct DECLARES (dispatched or not): a
+        # declared member on the path counts as the entry's action, so nothing else is added next to it
+        self.declared = declared or {}
 
     def field(self, defname, key):
         for f in self.F["defs"][defname]["fields"]:
@@ -443,12 +446,19 @@ class DocGen:
         """add what the conversion of struct defname needs (first union member, non-empty key)"""
         for c in self.conv.get(defname, []):
             if c[0] == "union" and c[2]:
-                if not any(k in c[1] and not self.is_null(v) for k, v in entries):
+                members = set(c[1]) | set(self.declared.get(defname, []))
+                if not any(k in members and not self.is_null(v) for k, v in entries):
                     f = self.field(defname, c[1][0])
                     entries.append([c[1][0], self.minval(f["node"], depth + 1)])
             elif c[0] == "nonempty":
                 if not any(k in c[1] and v[0] == "str" for k, v in entries):
                     entries.append([c[1][0], ["str", FILL]])
+        # plain (non-pointer) string members are given a value: several conversions parse them
+        # (object / field references) and refuse the empty string an absent key leaves behind
+        present = {k for k, _ in entries}
+        for f in self.F["defs"][defname]["fields"]:
+            if f["key"] not in present and not f.get("nilable", False) and f["node"] == {"k": "scalar", "t": "string"}:
+                entries.append([f["key"], ["str", FILL]])
         return entries
 
     def minval(self, n, depth=0, rich=False):
@@ -619,7 +629,7 @@ def translate(keys, schema_docs):
     ex = None
     for fi, fname in enumerate(FILES):
         F = T["files"][fname]
-        g = DocGen(F["loader"], F["conv"])
+        g = DocGen(F["loader"], F["conv"], declared_members(T, fname))
         try:
             paths = g.key_paths(1)
         except Exception:
@@ -691,3 +701,28 @@ def render_gen(T):
         L.append("Definition example_doc : doc := %s." % g_doc(ex["doc"]))
         L.append("Definition example_path : path := %s." % g_list([str(i) for i in ex["path"]]))
     return "\n".join(L) + "\n"
+
+
+def declared_members(T, fname):
+    """struct -> keys its union struct declares as nil-able members (through `,inline` too)"""
+    reg = {u["struct"]: u for u in T["registry"]}
+    out = {}
+    for defname, ustruct in T["files"][fname]["union_sites"]:
+        if ustruct in reg:
+            out.setdefault(defname, [])
+            out[defname] += reg[ustruct]["declared"]
+    return out
+
+
+def free_form_positions(forest):
+    """(struct, key, shape) of every declared key under which anything goes"""
+    out = []
+    for name in forest["order"]:
+        for f in forest["defs"][name]["fields"]:
+            n = f["node"]
+            while n["k"] == "seq":
+                n = n["e"]
+            if n["k"] in ("map", "any", "unknown"):
+                out.append("%s.%s (%s)" % (name, f["key"], "any" if n["k"] == "any" else
+                                             "unknown" if n["k"] == "unknown" else "map of " + n["e"]["k"]))
+    return out
